@@ -324,9 +324,10 @@ Definition handle_read (s : srv) (h off cnt : N) : srv * obs :=
   if two64 - 1 - cnt <? off then (s, fail_post NFSERR_INVAL)
   else match lookup_node s h with
   | None => (s, fail_post NFSERR_STALE)
-  | Some (p, _) =>
+  | Some (p, rattr) =>
+    if kind_eqb (na_kind rattr) KLink then (s, fail_post NFSERR_INVAL)     (* isSymlinkNode *)
     (* ReadWithContext: int64(offset) < 0 => "negative offset" error => NFS3ERR_IO *)
-    if two63N <=? off then (s, fail_post NFSERR_IO)
+    else if two63N <=? off then (s, fail_post NFSERR_IO)
     else
       let cnt1 := N.min cnt (tsize (conf s)) in
       let s1 := logc s (bc BOpenR p) in
@@ -365,7 +366,8 @@ Definition handle_write (s : srv) (h off cnt stable : N) (data : list N) : srv *
        then (s, fail_wcc NFSERR_FBIG)
   else match lookup_node s h with
   | None => (s, fail_wcc NFSERR_STALE)
-  | Some (p, _) =>
+  | Some (p, wattr) =>
+    if kind_eqb (na_kind wattr) KLink then (s, fail_wcc NFSERR_INVAL) else     (* isSymlinkNode *)
     let '(s1, pre) := getattr_h s h p in
     match pre with
     | Err e => (s1, fail_wcc (map_error e))
@@ -473,7 +475,8 @@ Definition handle_setattr (s : srv) (c : cred) (h : N) (sa : sattr) (guard : opt
   else if match s_mode sa with Some m => N.testbit m 15 | None => false end then (s, fail_wcc NFSERR_INVAL)
   else match lookup_node s h with
   | None => (s, fail_wcc NFSERR_STALE)
-  | Some (p, _) =>
+  | Some (p, sattr_node) =>
+    if kind_eqb (na_kind sattr_node) KLink then (s, fail_wcc NFSERR_INVAL) else     (* isSymlinkNode *)
     let '(s1, pre) := getattr_h s h p in
     match pre with
     | Err e => (s1, fail_wcc (map_error e))
@@ -1051,15 +1054,29 @@ Fixpoint clean_comps (acc : list name) (l : list name) : list name :=
   | [] => rev acc
   | c :: r => if is_dotdot c then clean_comps (tl acc) r else clean_comps (c :: acc) r
   end.
+Fixpoint mnt_prefix_check (s : srv) (pre : path) (fuel : nat) : srv * bool :=
+  match fuel, pre with
+  | O, _ | _, [] => (s, false)
+  | S k, _ =>
+    let '(s1, r) := do_lstat s pre in
+    match r with
+    | Ok fi => if kind_eqb (fi_kind fi) KLink then (s1, true) else mnt_prefix_check s1 (removelast pre) k
+    | Err _ => mnt_prefix_check s1 (removelast pre) k
+    end
+  end.
 Definition handle_mnt (s : srv) (p : list N) : srv * obs :=
   if negb (is_abs p) then (s, ob_fail 2)
   else
     let cp := clean_comps [] (split_path p) in
-    let '(s1, r) := srv_lookup s cp in
-    match r with
-    | Err _ => (s1, ob_fail 2)
-    | Ok a => let '(s2, fh) := alloc s1 cp a in (s2, ob_mk st_ok [] [] (Some fh) [] [])
-    end.
+    (* every proper non-root prefix, deepest first, is Lstat-ed; a symbolic link among them => MNT3ERR_ACCES *)
+    let '(s0, linked) := mnt_prefix_check s (removelast cp) (length cp) in
+    if linked then (s0, ob_fail 13)
+    else
+      let '(s1, r) := srv_lookup s0 cp in
+      match r with
+      | Err _ => (s1, ob_fail 2)
+      | Ok a => let '(s2, fh) := alloc s1 cp a in (s2, ob_mk st_ok [] [] (Some fh) [] [])
+      end.
 
 (* ---------- dispatch ---------- *)
 (* xdrDecodeString refuses strings longer than MAX_XDR_STRING_LENGTH and strings containing NUL:
